@@ -23,7 +23,22 @@
      ScoreOrdered     reported scores are non-increasing in returned order
    With a limit L (scanner.limit) the answer is L best-scored matching rows:
      LimitSubset / LimitCount   R's keys are matching rows, |R| = min(L, matching)
-   Score VALUES are not specified here (BM25 is real arithmetic).              *)
+   Score VALUES are not specified here (BM25 is real arithmetic).
+
+   Classes of matching-set errors (second component of a judgement).  The first
+   four describe what lance does today (deviations from the intended meaning
+   above, found by this check; see Judge):
+     and-matched-on-some-terms / indexed     AndDropsAbsentTerm: an AND match drops the terms that
+                                             do not occur in an index partition's vocabulary
+     and-matched-on-some-terms / unindexed   FlatAndIsOr: rows of not-yet-indexed fragments are
+                                             matched with OR semantics whatever the operator
+     phrase-missed / unindexed               PhraseSkipsUnindexed: phrase queries only consult the index
+     missed-beside-repeated-term / unindexed FlatScorerCountsOccurrences: the scorer of not-yet-indexed
+     must-not-missed-beside-repeated-term    rows counts a repeated token once per occurrence; the
+                                             idf turns negative and rows with score <= 0 are dropped
+                                             (so a must_not clause does not see them either)
+     extra-rows, missed-rows, phrase-matched-out-of-sequence, deleted-row-returned,
+     unknown-row-returned                    anything else                          *)
 EXTENDS Naturals, Integers, Sequences, FiniteSets, TLC
 
 NullDoc == <<0>>
@@ -74,14 +89,21 @@ Judge(T, ever, q, limit, R) ==
       gone == (ks \ Keys(T)) \cap ever
       alien == (ks \ Keys(T)) \ ever
       \* matching-set errors are reported separately for rows the index covers and rows it does not
+      count(d, t) == Cardinality({i \in 1..Len(d) : d[i] = t})
+      repeats == \E r \in T : ~r.indexed /\ ~IsNull(r.doc) /\ (\E t \in Terms(q) : count(r.doc, t) >= 2)
       part(S, w) == {k \in S \cap Keys(T) : rowOf(k).indexed = (w = "indexed")}
       extraClass(S, w) ==
-        IF HasKind(q, "match-and") /\ (\A k \in S : TokensOf(rowOf(k).doc) \cap Terms(q) # {})
+        IF q[1] = "bool" /\ w = "unindexed" /\ repeats
+           /\ (\A k \in S : \E i \in 1..Len(q[4]) : Matches(q[4][i], rowOf(k).doc))
+             THEN <<"must-not-missed-beside-repeated-term", w>>
+        ELSE IF HasKind(q, "match-and") /\ (\A k \in S : TokensOf(rowOf(k).doc) \cap Terms(q) # {})
              THEN <<"and-matched-on-some-terms", w>>
         ELSE IF HasKind(q, "phrase") /\ (\A k \in S : TokensOf(rowOf(k).doc) \cap Terms(q) # {})
              THEN <<"phrase-matched-out-of-sequence", w>>
         ELSE <<"extra-rows", w>>
-      missingClass(w) == IF HasKind(q, "phrase") THEN <<"phrase-missed", w>> ELSE <<"missed-rows", w>>
+      missingClass(w) == IF HasKind(q, "phrase") THEN <<"phrase-missed", w>>
+                         ELSE IF w = "unindexed" /\ repeats THEN <<"missed-beside-repeated-term", w>>
+                         ELSE <<"missed-rows", w>>
       extras(clause) ==
         (IF gone = {} THEN {} ELSE {<<clause, <<"deleted-row-returned", "">>>>})
         \cup (IF alien = {} THEN {} ELSE {<<clause, <<"unknown-row-returned", "">>>>})
